@@ -239,6 +239,10 @@ End PathHeur.
 (* deterministic stand-ins for np.random.choice: first key / last key of the candidate dict *)
 Definition choose_first (d : kvdict) : nat := fst (hd (O, 0) d).
 Definition choose_last (d : kvdict) : nat := fst (last d (O, 0)).
+(* the mode of the distribution (explore = 0): the first key of minimal value *)
+Definition choose_min (d : kvdict) : nat := match d with [] => O | kv0 :: rest => argmin kv0 rest end.
+Definition oracle_of (c : nat) : kvdict -> nat :=
+  match c with O => choose_first | S O => choose_last | _ => choose_min end.
 (* names used by the harness: "mf_Dum_<u>" -> 100 + 16 u, "mf_Dum_<u>_<k>" -> 100 + 16 u + k *)
 Definition harness_dum (u k : nat) : nat := (100 + 16 * u + k)%nat.
 
@@ -281,20 +285,20 @@ Definition path_hypb (st : pstate) : bool :=
   end.
 
 (* one case: graph history (base class), capacity, initial loading, candidate routes (add_route calls),
-   oracle (true = first key, false = last key), the high costs of the invocations, whether the harness
+   oracle (0 = first key, 1 = last key, 2 = first key of minimal value), the high costs of the invocations, whether the harness
    regards the instance as inside the hypotheses of the totality claim, the observations.
    Tags: k = invocation k differs, 9 = different number of invocations observed, 8 = hypothesis flag *)
-Definition pcase9 := (list gop * Z * Z * list (list elem) * bool * list Z * bool * list pobs9)%type.
+Definition pcase9 := (list gop * Z * Z * list (list elem) * nat * list Z * bool * list pobs9)%type.
 
 Definition pstate_of (ops : list gop) (cap init : Z) (rs : list (list elem)) : pstate :=
   prun (map PAddRoute rs) (mkP (run Base ops empty_graph) cap init [] [] []).
 
 Definition check_pcase9 (c : pcase9) : list nat :=
   match c with
-  | (ops, cap, init, rs, first, highs, hyp, impl) =>
+  | (ops, cap, init, rs, orc, highs, hyp, impl) =>
       let st := pstate_of ops cap init rs in
       chk 8 (Bool.eqb hyp (path_hypb st)) ++
-      zip9 O (map observe9 (mf_path_iter (if first then choose_first else choose_last) harness_dum st highs)) impl
+      zip9 O (map observe9 (mf_path_iter (oracle_of orc) harness_dum st highs)) impl
   end.
 
 (* ====================================================================================================
